@@ -52,6 +52,30 @@ def shownNumbers (plain : Str) : List Nat :=
       (if r.2.2 then cands else [], acc.2 ++ cands.map val)) st
   ((Str.splitNL plain).foldl step ([], [])).2
 
+/-- The superscript digits starting at `rest`, read across hard line breaks (a number cut at the
+    margin continues after the next line's indentation). -/
+partial def digitsAcross (rest : Str) : List Nat :=
+  let ds := rest.takeWhile fun d => (Safe.superVal d).isSome
+  let after := rest.drop ds.length
+  let here := ds.filterMap Safe.superVal
+  match after with
+  | '\n' :: tl =>
+    let tl' := tl.dropWhile fun c => c == ' ' || c == '▌' || c == '•'
+    match tl' with
+    | c :: _ => if !here.isEmpty && (Safe.superVal c).isSome then here ++ digitsAcross tl' else here
+    | [] => here
+  | _ => here
+
+/-- The number printed right after the first occurrence of `label` that is followed by one. -/
+partial def numberAfterBroken (label : Str) : Str → Option Nat
+  | [] => none
+  | c :: cs =>
+    if label.isPrefixOf (c :: cs) then
+      let ds := digitsAcross ((c :: cs).drop label.length)
+      if ds.isEmpty then numberAfterBroken label cs
+      else some (ds.foldl (fun n d => 10 * n + d) 0)
+    else numberAfterBroken label cs
+
 def renderOp (j : Json) : Except String Res := do
   let impl := (j.getObjVal? "impl").toOption.getD Json.null
   if let .ok _ := impl.getObjVal? "parseerror" then return { model := impl, nontrivial := false }
@@ -111,7 +135,7 @@ def renderOp (j : Json) : Except String Res := do
   let labelOk := (implOuts.zip widths).all fun (o, w) =>
     w < 8 || (let plain := Safe.strip o
       labels.all fun (l, t) =>
-        match Safe.numberAfter l plain with
+        match numberAfterBroken l plain with
         | some k => k ≥ 1 && implLinks[k - 1]? == some t
         | none => true)
   -- the numbers shown are 1..N, each exactly once (when nothing was cut)
